@@ -19,7 +19,7 @@ ASSUMPTIONS = [
     "an aborted write may or may not take effect (set-valued), at any later time until the next completed write to that byte",
 ]
 MIN_NONTRIVIAL = {"quick": 10, "thorough": 40}
-CLASSES = ["classic", "bursts", "mixed", "aborts", "same-word-rw", "aborts-bursts"]
+CLASSES = ["classic", "bursts", "mixed", "aborts", "same-word-rw", "aborts-bursts", "aborts-reads", "aborts-writes"]
 RATIOS = [(8, 64), (16, 64), (32, 64), (32, 128), (32, 32), (64, 64), (64, 32), (64, 16), (128, 16), (32, 256)]   # (wb bits, port bits)
 
 
@@ -34,6 +34,18 @@ def cases(tier, seed):
                  long_stall=r.choice([0, 0, 0.01]), gap=r.choice([0, 0, 2, 8]), seed="C10/%d/%d" % (seed, k))
         c["name"] = "%04d-wb%d-p%d-%s-%s" % (k, wbw, pw, c["cls"], hex(c["base"]))
         c["cost"] = c["nacc"]
+        out.append(c)
+    # the bridge on a port of the real crossbar + controller + reference DRAM
+    core_ratios = [(32, 32), (8, 32), (16, 64), (64, 32), (32, 64), (64, 64)]
+    core_classes = ["classic", "bursts", "mixed", "same-word-rw", "aborts", "aborts-reads"]
+    for k in range(12 if tier == "quick" else 90):
+        r = random.Random("C10/%d/%s/core/%d" % (seed, tier, k))
+        wbw, pw = core_ratios[k % len(core_ratios)]
+        c = dict(kind="wb2native", core=True, wbw=wbw, pw=pw, base=r.choice([0, 0x1000, 0x40000000]),
+                 cls=core_classes[(k // 2) % len(core_classes)], nacc=r.randint(50, 90), cmd_ready_prob=1.0, extra_lat=(0, 0), long_stall=0,
+                 gap=r.choice([0, 0, 2]), cmd_buffer_depth=r.choice([4, 8, 16]), refresh=(k % 6 != 5), seed="C10/%d/core/%d" % (seed, k))
+        c["name"] = "core%03d-wb%d-p%d-%s-%s" % (k, wbw, pw, c["cls"], hex(c["base"]))
+        c["cost"] = c["nacc"] * 6
         out.append(c)
     for k in range(12 if tier == "quick" else 60):
         r = random.Random("C10/n2w/%d/%s/%d" % (seed, tier, k))
@@ -60,10 +72,11 @@ def gen_accesses(c, r, aw_wb, ratio_n):
         if cls == "aborts-bursts":
             kind = r.choice(["aborts", "bursts", "bursts"])
         base = r.choice(hot) + r.randrange(8 * max(1, ratio_n))
-        if kind in ("classic", "aborts"):
+        if kind in ("classic", "aborts", "aborts-reads", "aborts-writes"):
             we = r.random() < 0.5
+            may_abort = kind == "aborts" or (kind == "aborts-reads" and not we) or (kind == "aborts-writes" and we)
             beat = dict(adr=base, we=we, sel=full if r.random() < 0.5 else (r.getrandbits(wbb) or 1), dat=r.getrandbits(c["wbw"]), cti=0,
-                        abort_after=r.randint(0, 12) if (kind == "aborts" and r.random() < 0.4) else None)
+                        abort_after=r.randint(0, 12) if (may_abort and r.random() < (0.4 if kind == "aborts" else 0.6)) else None)
             groups.append([beat])
             n += 1
         elif kind == "bursts":
@@ -111,16 +124,27 @@ def run_wb2native(c):
             self.port = LiteDRAMNativePort("both", aw_port, pw)
             self.submodules.bridge = LiteDRAMWishbone2Native(self.wb, self.port, base_address=c["base"])
 
-    dut = DUT()
-    store = Store(pb)
-    stub = CoreStub([dut.port], store, r, cmd_ready_prob=c["cmd_ready_prob"], extra_lat=tuple(c["extra_lat"]), long_stall=c["long_stall"])
+    if c.get("core"):
+        from ..corebackend import CoreBackend
+        stub = CoreBackend(1, databits=pw, refresh=c["refresh"], cmd_buffer_depth=c["cmd_buffer_depth"])
+        dut = stub.dut
+        dut.wb = wishbone.Interface(data_width=wbw, adr_width=aw_wb, addressing="word")
+        dut.submodules.bridge = LiteDRAMWishbone2Native(dut.wb, stub.ports[0], base_address=c["base"])
+        store = stub.store
+        mem_procs = stub.processes()
+        aw_port = stub.ports[0].address_width
+    else:
+        dut = DUT()
+        store = Store(pb)
+        stub = CoreStub([dut.port], store, r, cmd_ready_prob=c["cmd_ready_prob"], extra_lat=tuple(c["extra_lat"]), long_stall=c["long_stall"])
+        mem_procs = [stub.process()]
     # usable wishbone word addresses: keep inside the port's address space
     span_bits = aw_port + (pb.bit_length() - 1) - (wbb.bit_length() - 1)
     groups = gen_accesses(c, r, min(aw_wb, span_bits), ratio_n)
     off = c["base"] // wbb
     wb = dut.wb
     model = {}        # byte addr -> set of possible values
-    res = dict(v=[], acks=0, done=0, aborted=0, spurious=0, reads=0, writes=0)
+    res = dict(v=[], acks=0, done=0, aborted=0, spurious=0, reads=0, writes=0, wr_abort_after_cmd=0, rd_abort_after_cmd=0)
     state = dict(done=False)
 
     def init_byte(ba):
@@ -134,6 +158,8 @@ def run_wb2native(c):
         return s
 
     BOUND = 3000
+    fsm = getattr(dut.bridge, "fsm", None)
+    narrow_path = wbw < pw
 
     def main():
         cyc_n = 0
@@ -204,8 +230,16 @@ def run_wb2native(c):
                     # abort: drop cyc and stb, scramble the bus, idle a while
                     yield [wb.stb.eq(0), wb.cyc.eq(0), wb.dat_w.eq(r.getrandbits(wbw)), wb.sel.eq(r.getrandbits(wbb)), wb.we.eq(r.getrandbits(1)),
                            wb.adr.eq(r.getrandbits(10))]
-                    for _ in range(r.randint(1, 40)):
+                    for idle_k in range(r.randint(1, 40)):
                         yield
+                        if idle_k == 0 and fsm is not None and not narrow_path:
+                            # the bridge's own FSM tells whether the command of the dropped access had already been accepted:
+                            # in the first cycle with cyc low it then sits in its data state
+                            s_now = yield fsm.state
+                            if s_now == fsm.encoding.get("WRITE", -1):
+                                res["wr_abort_after_cmd"] += 1
+                            if s_now == fsm.encoding.get("READ", -1):
+                                res["rd_abort_after_cmd"] += 1
                         if (yield wb.ack):
                             res["v"].append(dict(kind="ack-after-abort", adr=b["adr"]))
                     break   # the rest of an aborted burst is not issued
@@ -215,15 +249,15 @@ def run_wb2native(c):
             now = (stub.seq, len(stub.wbeats[0]), len(stub.rbeats[0]), stub.outstanding())
             quiet = quiet + 1 if now == last else 0
             last = now
-            if quiet > 900 and stub.outstanding() == 0:
+            if quiet > (200 if c.get("core") else 900) and stub.outstanding() == 0:
                 break
             yield
         state["done"] = True
 
-    cycles, reason = run_sim(dut, [stub.process(), main()], lambda: state["done"], 2000000, wall_limit=900)
+    cycles, reason = run_sim(dut, mem_procs + [main()], lambda: state["done"], 2000000, wall_limit=900)
     if reason == "wall":
         return dict(verdict="inconclusive", why="wall-clock watchdog", violations=[], stats={}, nontrivial=False, signature="")
-    v = res["v"] + list(stub.events)
+    v = res["v"] + list(stub.events) + (stub.dfi_events() if c.get("core") else [])
     # final store: every touched byte inside its set; bytes never written keep their initial value
     bad = []
     for wa, w in store.mem.items():
@@ -240,13 +274,16 @@ def run_wb2native(c):
               cache_hits_or_merges=max(0, res["done"] - ncmd))
     under = sum(1 for e in stub.events if e.get("kind") == "wdata-underrun")
     st["memory_side_underruns"] = under
+    st["write_aborts_after_command_accepted"] = res["wr_abort_after_cmd"]
+    st["read_aborts_after_command_accepted"] = res["rd_abort_after_cmd"]
     for x in v:
         x["memory_side_underruns"] = under
         x["aborts_in_run"] = res["aborted"]
+        x["write_aborts_after_command_accepted"] = res["wr_abort_after_cmd"]
         x["path"] = "narrow" if wbw < pw else ("equal" if wbw == pw else "wide")
     narrow = wbw < pw
     nontrivial = res["done"] >= 40 and (not narrow or st["cache_hits_or_merges"] >= 1) and ("abort" not in c["cls"] or res["aborted"] >= 1)
-    sig = "|".join(str(x) for x in (wbw, pw, c["base"], c["cls"]))
+    sig = "|".join(str(x) for x in (wbw, pw, c["base"], c["cls"], bool(c.get("core"))))
     return dict(verdict="violated" if v else "held", violations=v[:8], stats=st, nontrivial=bool(nontrivial) or bool(v), signature=sig)
 
 
